@@ -503,12 +503,61 @@ func runC10(c *Ctx) {
 	// ---- R-TAIL-RESET and R-SIZE-PAIR (mlink.Queue)
 	queueT := P.Named("mlink", "Queue")
 	backF, sizeF, listF := P.Field("mlink", "Queue", "back"), P.Field("mlink", "Queue", "size"), P.Field("mlink", "Queue", "list")
+	if queueT != nil {
+		// by role when the private names differ: the cursor field, the list field, the one integer field
+		byType := func(tn string) *types.Var {
+			st := queueT.Underlying().(*types.Struct)
+			for i := 0; i < st.NumFields(); i++ {
+				t := st.Field(i).Type()
+				if p, ok := t.(*types.Pointer); ok {
+					t = p.Elem()
+				}
+				if nt, ok := t.(*types.Named); ok && nt.Obj().Name() == tn && nt.Obj().Pkg() == queueT.Obj().Pkg() {
+					return st.Field(i)
+				}
+			}
+			return nil
+		}
+		if backF == nil {
+			backF = byType("Cursor")
+		}
+		if listF == nil {
+			listF = byType("List")
+		}
+		if sizeF == nil {
+			st := queueT.Underlying().(*types.Struct)
+			for i := 0; i < st.NumFields(); i++ {
+				if isIntType(st.Field(i).Type()) {
+					sizeF = st.Field(i)
+				}
+			}
+		}
+	}
 	if queueT == nil || backF == nil || sizeF == nil || listF == nil {
 		c.undecided("ANCHOR", "mlink.Queue fields", 0, "anchor not found")
 		return
 	}
 	cRemove, cTrunc, cAdd := P.Func("mlink", "Cursor", "Remove"), P.Func("mlink", "Cursor", "Truncate"), P.Func("mlink", "Cursor", "Add")
 	lClear, lIsEmpty, lCfirst := P.Func("mlink", "List", "Clear"), P.Func("mlink", "List", "IsEmpty"), P.Func("mlink", "List", "cfirst")
+	if lCfirst == nil {
+		// by role: the unexported method of List that takes nothing and answers a cursor
+		for _, f := range P.PkgFuncs("mlink") {
+			if r := f.Signature.Recv(); r != nil && f.Parent() == nil && !token.IsExported(f.Name()) && f.Signature.Params().Len() == 0 && f.Signature.Results().Len() == 1 {
+				rt, res := r.Type(), f.Signature.Results().At(0).Type()
+				if p, ok := rt.(*types.Pointer); ok {
+					rt = p.Elem()
+				}
+				if p, ok := res.(*types.Pointer); ok {
+					res = p.Elem()
+				}
+				rn, ok1 := rt.(*types.Named)
+				sn, ok2 := res.(*types.Named)
+				if ok1 && ok2 && rn.Obj().Name() == "List" && sn.Obj().Name() == "Cursor" {
+					lCfirst = origin(f)
+				}
+			}
+		}
+	}
 	// frontCell: a local cursor variable that only ever receives the result of cfirst and is handed only to
 	// cursor methods that do not move the cursor
 	frontCell := func(v ssa.Value) bool {
@@ -725,6 +774,46 @@ func runC10(c *Ctx) {
 					if cal := staticCallee(&fc.Call); cal != nil && cal.Name() == "AtEnd" && !truth && fc.Call.Args[0] == call.Call.Args[0] {
 						return "-1"
 					}
+					// … or it is the first cursor of a list known not to be empty (taken after that test)
+					if cal := staticCallee(&fc.Call); cal != nil && cal == lIsEmpty && !truth {
+						recv := call.Call.Args[0]
+						if al, ok := recv.(*ssa.Alloc); ok {
+							// the cursor lives in a local cell: the one value stored into it
+							var vals []ssa.Value
+							for _, r := range referrersOf(al) {
+								if st, ok := r.(*ssa.Store); ok && st.Addr == ssa.Value(al) {
+									vals = append(vals, st.Val)
+								}
+							}
+							if len(vals) == 1 {
+								recv = vals[0]
+							}
+						}
+						if first, ok := recv.(*ssa.Call); ok && staticCallee(&first.Call) == lCfirst && sym(first.Call.Args[0]) == sym(fc.Call.Args[0]) && dominatesInstr(fc, first) {
+							return "-1"
+						}
+					}
+				}
+				// … or of a list whose Peek(0) just found an element
+				for ex, truth := range extractFactsAt(call.Block()) {
+					pk, ok := ex.Tuple.(*ssa.Call)
+					if !ok || !truth || ex.Index != 1 {
+						continue
+					}
+					if cal := staticCallee(&pk.Call); cal == nil || cal.Name() != "Peek" || cal.Pkg != origin(fn).Pkg || len(pk.Call.Args) != 2 || !isConstInt(pk.Call.Args[1], 0) {
+						continue
+					}
+					recv := call.Call.Args[0]
+					if al, ok := recv.(*ssa.Alloc); ok {
+						for _, r := range referrersOf(al) {
+							if st, ok := r.(*ssa.Store); ok && st.Addr == ssa.Value(al) {
+								recv = st.Val
+							}
+						}
+					}
+					if first, ok := recv.(*ssa.Call); ok && staticCallee(&first.Call) == lCfirst && sym(first.Call.Args[0]) == sym(pk.Call.Args[0]) && dominatesInstr(pk, first) {
+						return "-1"
+					}
 				}
 				return "-?"
 			case lClear:
@@ -744,8 +833,16 @@ func runC10(c *Ctx) {
 				}
 				n := 0
 				allInstrs(fn, func(in2 ssa.Instruction) {
-					if editKind(in2) == k && dominatesInstr(in2, in) {
+					if editKind(in2) != k {
+						return
+					}
+					if dominatesInstr(in2, in) {
 						n++
+					} else if dominatesInstr(in, in2) {
+						// the count first, the edit right behind it on every path: the same pair
+						if okP, _ := mustPassToExit(P, in, func(x ssa.Instruction) bool { return x == in2 }); okP {
+							n++
+						}
 					}
 				})
 				c.judge(n == 1, "R-SIZE-PAIR", key, in.Pos(), "preceded on every path by exactly one matching list edit", fmt.Sprintf("size update %s is dominated by %d matching list edits (want exactly one: a one-element Add, a Remove on the not-at-end path, or Clear)", k, n))
@@ -753,6 +850,13 @@ func runC10(c *Ctx) {
 			if k := editKind(in); k != "" {
 				// converse: every list edit is followed on all paths by exactly one matching size update
 				okP, wit := mustPassToExit(P, in, func(in2 ssa.Instruction) bool { return sizeKind(in2) == k })
+				if !okP {
+					allInstrs(fn, func(in2 ssa.Instruction) {
+						if sizeKind(in2) == k && dominatesInstr(in2, in) {
+							okP = true // counted just before the edit
+						}
+					})
+				}
 				if !okP {
 					c.bad("R-SIZE-PAIR", name+":edit"+k+" without size update", in.Pos(), "the list changes length but size is not updated to match on some path ("+wit+")")
 				}
@@ -1508,54 +1612,69 @@ func ruleWrapChecked(c *Ctx) {
 		return
 	}
 	c.sawFn(fnName(at))
-	recv := at.Params[0]
-	var comparedD func(v ssa.Value, d int) bool
-	comparedD = func(v ssa.Value, d int) bool {
-		for _, r := range referrersOf(v) {
-			switch x := r.(type) {
-			case *ssa.BinOp:
-				if x.Op == token.EQL || x.Op == token.NEQ {
-					if (x.X == v && x.Y == ssa.Value(recv)) || (x.Y == v && x.X == ssa.Value(recv)) {
+	n := 0
+	var bad []string
+	// check: every link-derived node fn returns has been compared with recv; a node handed back by a helper of the
+	// package that was given recv (r.walk(n, step)) is judged inside that helper, against its own parameter
+	var check func(fn *ssa.Function, recv ssa.Value, depth int)
+	check = func(fn *ssa.Function, recv ssa.Value, depth int) {
+		var comparedD func(v ssa.Value, d int) bool
+		comparedD = func(v ssa.Value, d int) bool {
+			for _, r := range referrersOf(v) {
+				switch x := r.(type) {
+				case *ssa.BinOp:
+					if x.Op == token.EQL || x.Op == token.NEQ {
+						if (x.X == v && x.Y == recv) || (x.Y == v && x.X == recv) {
+							return true
+						}
+					}
+				case *ssa.Phi:
+					// the step is merged with its mirror image before the test (cur = cur.prev / cur.next; if cur == r)
+					if d < 3 && comparedD(x, d+1) {
 						return true
 					}
 				}
+			}
+			return false
+		}
+		seen := map[ssa.Value]bool{}
+		var walk func(v ssa.Value)
+		walk = func(v ssa.Value) {
+			if seen[v] {
+				return
+			}
+			seen[v] = true
+			switch x := v.(type) {
 			case *ssa.Phi:
-				// the step is merged with its mirror image before the test (cur = cur.prev / cur.next; if cur == r)
-				if d < 3 && comparedD(x, d+1) {
-					return true
+				for _, e := range x.Edges {
+					walk(e)
+				}
+			case *ssa.Const, *ssa.Parameter:
+			case *ssa.Call, *ssa.UnOp:
+				if call, ok := v.(*ssa.Call); ok && depth < 2 {
+					if cal := staticCallee(&call.Call); cal != nil && cal.Blocks != nil && cal.Pkg == origin(at).Pkg {
+						for j, a := range call.Call.Args {
+							if a == recv && j < len(cal.Params) {
+								c.sawFn(fnName(cal))
+								check(cal, cal.Params[j], depth+1)
+								return
+							}
+						}
+					}
+				}
+				n++
+				if !comparedD(v, 0) {
+					bad = append(bad, fmt.Sprintf("%s at %s", ksym(v), P.pos(v.Pos())))
 				}
 			}
 		}
-		return false
-	}
-	comparedWithRecv := func(v ssa.Value) bool { return comparedD(v, 0) }
-	n := 0
-	var bad []string
-	seen := map[ssa.Value]bool{}
-	var walk func(v ssa.Value)
-	walk = func(v ssa.Value) {
-		if seen[v] {
-			return
-		}
-		seen[v] = true
-		switch x := v.(type) {
-		case *ssa.Phi:
-			for _, e := range x.Edges {
-				walk(e)
+		allInstrs(fn, func(in ssa.Instruction) {
+			if ret, ok := in.(*ssa.Return); ok && len(ret.Results) == 1 {
+				walk(ret.Results[0])
 			}
-		case *ssa.Const, *ssa.Parameter:
-		case *ssa.Call, *ssa.UnOp:
-			n++
-			if !comparedWithRecv(v) {
-				bad = append(bad, fmt.Sprintf("%s at %s", ksym(v), P.pos(v.Pos())))
-			}
-		}
+		})
 	}
-	allInstrs(at, func(in ssa.Instruction) {
-		if ret, ok := in.(*ssa.Return); ok && len(ret.Results) == 1 {
-			walk(ret.Results[0])
-		}
-	})
+	check(at, at.Params[0], 0)
 	sort.Strings(bad)
 	if n == 0 {
 		c.undecided("R-WRAP-CHECKED", "ring.(*Ring).At:returned nodes", at.Pos(), "At returns no node reached through a link")
